@@ -29,7 +29,7 @@ func subscribeOnce() {
 			evMu.Lock()
 			n := evCur
 			evMu.Unlock()
-			if n == nil || n.closed {
+			if n == nil {
 				return
 			}
 			n.onEvent(e)
@@ -41,6 +41,14 @@ func (n *Node) activateEvents() {
 	subscribeOnce()
 	evMu.Lock()
 	evCur = n
+	evMu.Unlock()
+}
+
+func (n *Node) deactivateEvents() {
+	evMu.Lock()
+	if evCur == n {
+		evCur = nil
+	}
 	evMu.Unlock()
 }
 
